@@ -323,6 +323,7 @@ func (d *Decoder) decodeData(tr TemplateRecord) ([]DecodedField, error) {
 	)
 
 	r := d.reader
+	startCount := r.ReadCount()
 
 	for i := 0; i < len(tr.ScopeFieldSpecifiers); i++ {
 		b, err = r.Read(int(tr.ScopeFieldSpecifiers[i].Length))
@@ -366,6 +367,12 @@ func (d *Decoder) decodeData(tr TemplateRecord) ([]DecodedField, error) {
 			ID:    m.FieldID,
 			Value: ipfix.Interpret(&b, m.Type),
 		})
+	}
+
+	// a record that consumes no octets (no fields, or only zero-length fields)
+	// would be decoded over and over again
+	if len(fields) == 0 || r.ReadCount() == startCount {
+		return nil, fmt.Errorf("failed to decodeData")
 	}
 
 	return fields, nil
